@@ -271,6 +271,18 @@ CORPUS = [
     {"dt": "i4", "shape": [4], "data": [1, 65536, -2, 16777216], "fill": None, "endian": "big", "bendian": "little",
      "attrs": {"_Unsigned": {"t": "str", "v": "true"}, "scale_factor": {"t": "f8", "v": [2], "vec": False}},
      "idx": [["list", [0, 3]]], "kind": "aux", "fam": "corpus-big-endian-unsigned", "inexact": False, "malformed": False},
+    # a zero-dimensional big-endian variable: the netCDF4 library returns its value in native byte order, and the fill and
+    # valid values were viewed with the byte order of the data after being created with that of the variable (fix3-2)
+    {"dt": "i8", "shape": [], "data": [-9223372036854775806], "fill": None, "endian": "big", "bendian": "big",
+     "attrs": {"_Unsigned": {"t": "str", "v": "True"}}, "idx": None, "kind": "field", "fam": "corpus-scalar-big-endian-unsigned",
+     "inexact": False, "malformed": False},
+    {"dt": "i2", "shape": [], "data": [-2], "fill": 5, "endian": "big", "bendian": "big",
+     "attrs": {"_Unsigned": {"t": "str", "v": "true"}, "valid_max": {"t": "i2", "v": [-3], "vec": False}}, "idx": None,
+     "kind": "field", "fam": "corpus-scalar-big-endian-unsigned", "inexact": False, "malformed": False},
+    {"dt": "i4", "shape": [], "data": [7], "fill": None, "endian": "big", "bendian": "big",
+     "attrs": {"_Unsigned": {"t": "str", "v": "true"}, "missing_value": {"t": "i4", "v": [7], "vec": False},
+               "scale_factor": {"t": "f8", "v": [2], "vec": False}}, "idx": None,
+     "kind": "field", "fam": "corpus-scalar-big-endian-unsigned", "inexact": False, "malformed": False},
     # identity packing under _Unsigned cast the view back to the signed type (fix3-1); int32 data with scale_factor = 1s wrapped
     {"dt": "i2", "shape": [4], "data": [1, -2, -7, 258], "fill": None, "endian": "native", "bendian": "native",
      "attrs": {"_Unsigned": {"t": "str", "v": "true"}, "scale_factor": {"t": "i2", "v": [1], "vec": False}},
@@ -514,6 +526,13 @@ def default_fill_under_view(c):
     fill value's bit pattern (both viewed as unsigned); netCDF4-python compares the viewed data with the
     signed default, which never matches."""
     return unsigned_on(c) and c["dt"][0] == "i" and c["fill"] is None
+
+
+def scalar_nonnative_view(c):
+    """A zero-dimensional signed-integer variable of two or more bytes stored in non-native byte order and viewed as
+    unsigned: the netCDF4 library returns its value in native byte order (fix3-2)."""
+    e = c.get("endian", "native")
+    return (c.get("shape") == [] and e not in ("native", sys.byteorder) and unsigned_on(c) and c["dt"] in ("i2", "i4", "i8"))
 
 
 def range_and_minmax(c):
@@ -917,13 +936,17 @@ def judge(chk, model_ok, cases, rows, crashed):
                 continue
             if odd:
                 continue
+            if u == 1 and scalar_nonnative_view(c):
+                continue      # netCDF4-python has this defect itself (values viewed byte-swapped): Spec / model / backends judge
             for b in ("netCDF4", "h5netcdf"):
                 o = cf.get(f"{b}|{m}|{u}", {}).get("whole")
                 stats["ref_compared"] += 1
                 ok = ref_agrees(c, o, ref, u)
                 if not ok:
                     sig = "read-differs-from-netCDF4-library"
-                    if u == 1 and identity_pack(c):
+                    if u == 1 and scalar_nonnative_view(c):
+                        sig = "unsigned-view-of-scalar-in-non-native-byte-order"
+                    elif u == 1 and identity_pack(c):
                         sig = "identity-packing-changes-values"
                     elif unsigned_on(c) and not isint(c["dt"]):
                         sig = "unsigned-attribute-on-non-integer"
@@ -994,7 +1017,7 @@ def judge(chk, model_ok, cases, rows, crashed):
                 stats["backend_pairs"] += 1
                 for fld in ("whole", "sub", "applied"):
                     if fld in o and "err" not in o[fld] and not same(o[fld], o2.get(fld)):
-                        fail(c, "backends-differ", f"{desc} mask={m} unpack={u} {fld}: netCDF4 {brief(o[fld])} vs h5netcdf {brief(o2.get(fld))}",
+                        fail(c, "unsigned-view-of-scalar-in-non-native-byte-order" if (u and scalar_nonnative_view(c)) else "backends-differ", f"{desc} mask={m} unpack={u} {fld}: netCDF4 {brief(o[fld])} vs h5netcdf {brief(o2.get(fld))}",
                              brief(o[fld]), brief(o2.get(fld)), key)
             # O6: apply_masking after a mask=False read reproduces the masked read
             if not m and "applied" in o:
@@ -1109,6 +1132,9 @@ def judge(chk, model_ok, cases, rows, crashed):
         "documented deviation accepted: with only scale_factor == 1 (or only add_offset == 0) cfdm presents the data type that the "
         "unpacking arithmetic would give (CF 8.1) where netCDF4-python leaves the packed (viewed) type; the values are compared as "
         "numbers and the mask must agree",
+        "a zero-dimensional _Unsigned integer variable stored in non-native byte order is not compared with netCDF4-python, which "
+        "views the fill / missing / valid values of such a variable byte-swapped itself; the proved Spec (through the model "
+        "correspondence) and the agreement of the two backends judge it",
         "the harness runs on a little-endian machine: 'native' is little-endian in the Gallina literals (sys.byteorder is consulted)",
         "integers are exact in Z; float variables and attributes are restricted in the model to integers of magnitude <= 2^24 "
         "(f4) / 2^53 (f8), the default fill value 15*2^119 and NaN; elements whose unpacked value leaves that range, and "
